@@ -39,6 +39,7 @@ def raw_opaque(n):
 
 def rpaths(f, name, **kw):
     b = f.need(name)
+    kw.setdefault("auto_unroll", True)
     return b, sym.SymExec(f, b, raw=True, opaque=raw_opaque, max_depth=6, **kw).run()
 
 
@@ -59,7 +60,7 @@ TOTAL_CORE = (
     "core::iter::traits::iterator::Iterator::", "core::iter::adapters::", "<core::iter::adapters::", "<core::str::iter::", "<core::slice::iter::",
     "<T as core::convert::", "<char as core::", "<str as core::cmp::PartialEq", "<&A as core::cmp::PartialEq", "core::cmp::", "<&'a ",
     "core::fmt::", "core::convert::", "<core::ops::range::", "core::str::<impl str>::", "core::char::methods::<impl char>::",
-    "core::num::<impl ", "core::mem::replace", "<I as core::iter::traits::collect::IntoIterator>::into_iter", "<u64 as core::ops::bit::", "u64::", "u8::", "u16::", "usize::", "<bool>::then_some", "bool::then_some", "core::bool::<impl bool>::then_some",
+    "core::num::<impl ", "core::mem::replace", "[T]::iter", "core::slice::<impl [T]>::iter", "[T]::len", "core::slice::<impl [T]>::len", "<I as core::iter::traits::collect::IntoIterator>::into_iter", "<u64 as core::ops::bit::", "u64::", "u8::", "u16::", "usize::", "<bool>::then_some", "bool::then_some", "core::bool::<impl bool>::then_some",
 )
 PARTIAL_CORE = ("::unwrap", "::expect", "::split_at", "::index", "::index_mut", "slice::index", "::unwrap_unchecked", "::get_unchecked",
                 "::nth", "::step_by", "::chunks", "::windows", "::from_utf8_unchecked", "::split_at_mut", "::copy_from_slice", "::swap", "::remove", "::insert")
@@ -90,8 +91,32 @@ def parser_callees(ctx, f, roots, tag, only_files=None):
         b = f.bodies[k]
         if only_files and not any(b.file.endswith(x) for x in only_files):
             continue
+        # function items of the core library handed on as values (`take_last(&mut s, char::to_digit)`) are calls in waiting
+        for blk_ in b.blocks:
+            ops_ = []
+            for s_ in blk_["stmts"]:
+                if s_["k"] == "assign":
+                    rv_ = s_["rv"]
+                    ops_ += list(rv_.get("ops") or []) + ([rv_["op"]] if rv_["k"] in ("use", "cast") and "op" in rv_ else [])
+            if blk_["term"]["k"] == "call":
+                ops_ += blk_["term"]["args"]
+            for o_ in ops_:
+                if isinstance(o_, dict) and o_.get("k") == "const" and "fnref" in o_:
+                    fn_ = o_["fnref"].get("res") or o_["fnref"]["fn"]
+                    if fn_ in f.bodies or fn_.startswith("cozy_chess") or fn_.startswith("<cozy_chess"):
+                        continue
+                    n += 1
+                    ctx.check(core_callee_ok(fn_), "%s:total-callee:%s" % (tag, fn_.split("<")[0][-40:] + fn_.rsplit("::", 1)[-1]),
+                              "parser code hands on %s, which is not on the list of total core functions (it may panic on some input)" % fn_, loc(b))
         for bb, t in b.calls():
             cn = callee_name(t)
+            if cn in ("core::ops::function::FnOnce::call_once", "core::ops::function::FnMut::call_mut", "core::ops::function::Fn::call") \
+                    and (t["callee"].get("targs") or [None])[0] in (b.j.get("generics") or []):
+                # a call of the function's own callable parameter: whatever is handed in is a closure or function of this
+                # crate (read as a body of its own) or a core function item (checked where it is mentioned)
+                n += 1
+                ctx.ok("%s:callable-parameter:%s" % (tag, k.rsplit("::", 1)[-1]))
+                continue
             if not cn or cn in f.bodies or cn.startswith("cozy_chess"):
                 continue
             if cn.startswith("<cozy_chess") and cn in f.bodies:
@@ -311,21 +336,47 @@ def run(ctx):
             if len(c) == 1 and isinstance(c[0][1], int) and p.ret[0] == "int":
                 to_char[c[0][1]] = p.ret[1]
         b2, ps2 = rpaths(f, "<%s as core::convert::TryFrom<char>>::try_from" % ty)
+        # char -> enum by evaluation: every decision of the function compares the char with a constant (a `match` on
+        # literals, or a search through a constant table executed element by element), so its answer is constant on
+        # each constant and between them; the constants, their neighbours and the ends of the char range are evaluated
         from_char = {}
-        rejects = None
+        VAL = P("value")
+        consts = set(to_char.values())
+        piecewise = True
         for p in ps2:
-            c = [c for c in p.conds if c[0] == P("value")]
-            if len(c) != 1:
-                continue
-            if isinstance(c[0][1], int):
-                r = p.ret
-                if r[0] == "agg" and r[2] == "Ok":
-                    from_char[c[0][1]] = conc.enum_index(dict(r[4])["0"])
+            for c in p.conds:
+                e_ = c[0]
+                if e_ == VAL:
+                    consts |= {c[1]} if isinstance(c[1], int) else set(c[1][1])
+                elif e_[0] == "bin" and e_[1] in ("Eq", "Ne") and VAL in (e_[2], e_[3]) and (e_[2][0] == "int" or e_[3][0] == "int"):
+                    consts.add((e_[2] if e_[2][0] == "int" else e_[3])[1])
+                elif sym.contains(e_, lambda y: y == VAL):
+                    piecewise = False
+        reps = set()
+        for k_ in consts:
+            reps |= {k_ - 1, k_, k_ + 1}
+        reps |= {0, 0x10FFFF}
+        reps = sorted(x for x in reps if 0 <= x <= 0x10FFFF and not 0xD800 <= x <= 0xDFFF)
+        rejected = set()
+        stuck = None
+        for ch in reps:
+            try:
+                got = conc.eval_paths(ps2, {VAL: ch}, NV)
+            except Stuck as ex:
+                stuck = "%r: %s" % (chr(ch), ex)
+                break
+            if isinstance(got, tuple) and got and got[0] == "ok":
+                from_char[ch] = got[1]
+            elif got == ("err",):
+                rejected.add(ch)
             else:
-                rejects = (set(c[0][1][1]), p.ret[2])
+                stuck = "%r -> %s" % (chr(ch), got)
+                break
         n = ENUMS[en]
         ok = len(to_char) == n and len(set(to_char.values())) == n and from_char == {ch: k for k, ch in to_char.items()} and \
-            rejects is not None and rejects[0] == set(to_char.values()) and rejects[1] == "Err"
+            piecewise and stuck is None and rejected == set(reps) - set(to_char.values())
+        if stuck:
+            ctx.note("%s::try_from(char): %s" % (en, stuck))
         ctx.check(ok, "char-table:%s" % en, "%s: enum->char and char->enum are not inverse bijections (to_char %s, from_char %s)"
                   % (en, {k: chr(v) for k, v in to_char.items()}, {chr(k): v for k, v in from_char.items()}), loc(b),
                   sample={"enum": en, "chars": "".join(chr(to_char[k]) for k in sorted(to_char))})
@@ -418,7 +469,17 @@ def run(ctx):
                 a = e.args[0]
                 if a[0] == "ptr":
                     a = e.extra.get("pointees", {}).get(0, a)
-                order.append("file" if sym.contains(a, lambda x: x[0] == "bin" and x[1] == "BitAnd") else ("rank" if sym.contains(a, lambda x: x[0] == "bin" and x[1] == "Shr") else "?"))
+                # which coordinate the argument is: evaluated for all 64 squares
+                kind = "?"
+                try:
+                    vals = [conc.Conc({("obj", "self"): s_, ("param", "self"): s_}, NV).ev(a) for s_ in range(64)]
+                    if vals == [s_ % 8 for s_ in range(64)]:
+                        kind = "file"
+                    elif vals == [s_ // 8 for s_ in range(64)]:
+                        kind = "rank"
+                except (Stuck, TypeError, KeyError, IndexError):
+                    pass
+                order.append(kind)
     ctx.check(order == ["file", "rank"], "Square::fmt:order", "Square's Display does not format file then rank: %s" % order, loc(b), sample={"Square::fmt": order})
     # Move::from_str
     mname = "<%s as core::str::traits::FromStr>::from_str" % (T + "chess_move::Move")
